@@ -6,7 +6,7 @@ its documented domain.
 """
 import ast
 from ..project import dotted_parts
-from ..callgraph import resolve_callee
+from ..callgraph import resolve_callee, scope_chain
 from ..dataflow import origins, _Opaque, own_nodes
 
 RULE_K1 = ('K1: int(x)/float(x) is never applied to a name that the same straight-line block has already '
@@ -638,3 +638,115 @@ def md1(proj, rep, modules):
                 rep.ok('MD1', f'{mq}.{fn.name}', 'no shared mutable default', m, fn, text=f'{mq}.{fn.name} defaults')
     rep.count('MD1.functions_with_defaults', n)
     return n
+
+
+# ------------------------------------------------------------------------------------------------ AR2
+RULE_AR2 = ('AR2: a multipartite operator stored as a (prod dims) x (prod dims) matrix is split with the FIRST subsystem as the major index: '
+            '`rho.reshape(dimA, dimB, dimA, dimB)` (role order ascending on the row side and again on the column side). `reshape(dimB, dimA, dimB, dimA)` '
+            'is accepted by NumPy (same product) but is the tensor structure of the swapped factorisation: partial transposes / traces act on the '
+            'wrong factor whenever dimA != dimB.')
+
+
+def ar2(proj, rep, modules=None):
+    rep.rule('AR2', RULE_AR2)
+    n = 0
+    for fi in proj.iter_functions():
+        m = fi.module
+        if modules is not None and not any(m.qual == q or m.qual.startswith(q + '.') for q in modules):
+            continue
+        for c in ast.walk(fi.node):
+            if not (isinstance(c, ast.Call) and isinstance(c.func, ast.Attribute) and c.func.attr == 'reshape'):
+                continue
+            args = c.args[0].elts if len(c.args) == 1 and isinstance(c.args[0], (ast.Tuple, ast.List)) else c.args
+            roles = []
+            for a in args:
+                t = ast.unparse(a)
+                r = _role(t) if _re.match(r'^[\w\.]+$', t) else None
+                roles.append(r)
+            named = [r for r in roles if r is not None]
+            if len(named) < 4 or len(named) != len([r for r in roles[-len(named):] if r is not None]) or len(named) % 2:
+                continue
+            tail = roles[-len(named):]
+            if None in tail:
+                continue
+            k = len(named) // 2
+            ranks = [r[1] for r in tail]
+            if sorted(ranks[:k]) != sorted(ranks[k:]) or len(set(ranks[:k])) != k:
+                continue
+            n += 1
+            rep.touch(m)
+            if ranks[:k] == sorted(ranks[:k]) and ranks[k:] == sorted(ranks[k:]):
+                rep.ok('AR2', fi.qual, f'`{ast.unparse(c)[-60:]}`: subsystems in ascending order on both sides', m, c)
+            elif ranks[:k] == ranks[k:]:
+                rep.violation('AR2', fi.qual, f'`{ast.unparse(c)[:90]}` splits the composite index with the LATER subsystem as the major index: this is the tensor '
+                              f'structure of the swapped factorisation; a following partial transpose / trace acts on the wrong factor for unequal dimensions', m, c)
+            else:
+                rep.violation('AR2', fi.qual, f'`{ast.unparse(c)[:90]}` uses different subsystem orders for rows and columns', m, c)
+    rep.count('AR2.multipartite_reshapes', n)
+    return n
+
+
+# ------------------------------------------------------------------------------------------------ MC1
+RULE_MC1 = ('MC1: a hand-rolled memo in a module-level dict (`if key not in CACHE: CACHE[key] = value`) is keyed on every input the stored value is computed '
+            'from: all parameters / closure variables in the provenance of `value` also occur in the provenance of `key`. A coarser key (e.g. the total '
+            'dimension instead of the dimension tuple) makes a later call with different inputs but the same key reuse a value computed for the earlier ones: '
+            'the verdict depends on the call history.')
+
+
+def mc1(proj, rep, modules):
+    rep.rule('MC1', RULE_MC1)
+    n = 0
+    nfun = 0
+    for mq in modules:
+        m = proj.mod(mq)
+        rep.touch(m)
+        glob = {t.id for s in m.tree.body if isinstance(s, ast.Assign) for t in s.targets if isinstance(t, ast.Name)
+                and (isinstance(s.value, (ast.Dict,)) or (isinstance(s.value, ast.Call) and isinstance(s.value.func, ast.Name) and s.value.func.id in ('dict', 'OrderedDict', 'defaultdict')))}
+        for fi in [f for f in proj.funcs.values() if f.module is m]:
+            nfun += 1
+            if not glob:
+                continue
+            for st in ast.walk(fi.node):
+                if not (isinstance(st, ast.Assign) and isinstance(st.targets[0], ast.Subscript) and isinstance(st.targets[0].value, ast.Name)
+                        and st.targets[0].value.id in glob):
+                    continue
+                n += 1
+                # provenance roots: parameters of the enclosing functions (closure included)
+                scopes = [fi.node] + [s for s in scope_chain(fi.node) if isinstance(s, (ast.FunctionDef, ast.Lambda))]
+                enclosing = []
+                cur = st
+                while hasattr(cur, '_parent'):
+                    cur = cur._parent
+                    if isinstance(cur, (ast.FunctionDef, ast.Lambda)):
+                        enclosing.append(cur)
+                params = set()
+                for sc in enclosing:
+                    a = sc.args
+                    params |= {x.arg for x in a.posonlyargs + a.args + a.kwonlyargs}
+
+                def roots(e, seen=None, depth=0):
+                    seen = seen if seen is not None else set()
+                    out = set()
+                    for x in ast.walk(e):
+                        if isinstance(x, ast.Name) and isinstance(x.ctx, ast.Load) and x.id not in seen:
+                            seen.add(x.id)
+                            if x.id in params:
+                                out.add(x.id)
+                            if depth < 6:
+                                for sc in enclosing:
+                                    for s2 in ast.walk(sc):
+                                        if isinstance(s2, ast.Assign) and any(isinstance(t2, ast.Name) and t2.id == x.id for t2 in s2.targets):
+                                            out |= roots(s2.value, seen, depth + 1)
+                    return out
+                kr = roots(st.targets[0].slice)
+                vr = roots(st.value)
+                missing = sorted(vr - kr)
+                cname = st.targets[0].value.id
+                if missing:
+                    rep.violation('MC1', fi.qual, f'`{cname}[{ast.unparse(st.targets[0].slice)}] = ...` stores a value computed from {sorted(vr)} under a key that only '
+                                  f'depends on {sorted(kr)}: a later call that differs in {missing} but has the same key silently reuses it (history-dependent result)', m, st)
+                else:
+                    rep.ok('MC1', fi.qual, f'module-level memo `{cname}` is keyed on every input of the stored value', m, st)
+    rep.count('MC1.functions_scanned', nfun)
+    rep.count('MC1.module_level_memos', n)
+    return nfun, n
